@@ -1017,6 +1017,77 @@ func init() {
 			}
 			v.close()
 		}
+		// ---- one transaction travels twice: first as an awaiting contract (transaction gossip), later sealed in a
+		// vertex (vertex gossip). The two are different items: having seen / signed the first says nothing about
+		// the second. Line 0-1-2; with and without a relay that replays the transaction-gossip entries.
+		for _, replay := range []bool{false, true} {
+			v := newVnet(c, 3, [][]int{{1}, {0, 2}, {1}}, []bool{true, true, true}, true)
+			v.silent = true
+			rich, other := v.w.wallets[0], v.w.wallets[1]
+			ctx, cancel := context.WithCancel(context.Background())
+			v.gsp[0].RunOrigin(ctx)
+			ct, _ := transaction.New("deal", spice.Melange{}, []byte("terms"), other.Address(), recSigner{rich})
+			v.caches[0].SaveAwaitedTransaction(&ct)
+			v.item = ct.Hash
+			pt, _ := transformers.TrxToProtoTrx(ct)
+			v.pipes[0].SendTrx(pt)
+			v.waitFresh(1)
+			v.settle()
+			var trail []*pb.Gossiper // genuine entries signed over the TRANSACTION hash
+			for steps := 0; len(v.queue) > 0 && steps < 20; steps++ {
+				if v.queue[0].trx != nil {
+					trail = append(trail, v.queue[0].trx.Gossipers...)
+				}
+				v.deliver(0)
+			}
+			// the receiver countersigns, node 0 seals the contract in a vertex and gossips the vertex
+			if _, err := ct.Sign(recSigner{other}, v.w.ver); err != nil {
+				cancel()
+				v.close()
+				return fmt.Errorf("trx-then-vertex scenario: countersign: %v", err)
+			}
+			vx, err := v.nodes[0].ab.CreateLeaf(context.Background(), &ct)
+			if err != nil {
+				cancel()
+				v.close()
+				return fmt.Errorf("trx-then-vertex scenario: seal: %v", err)
+			}
+			v.isTrx = false
+			v.item = vx.Hash
+			v.seenAt = map[int]bool{}
+			v.pipes[0].SendVrx(&vx)
+			v.waitFresh(1)
+			v.settle()
+			if replay && len(v.queue) > 0 && v.queue[0].vrx != nil {
+				// a copy of the vertex message that lists, in addition, everybody's entries from the transaction gossip
+				forged := qmsg{src: 0, dst: 1, vrx: &pb.VrxMsgGossip{Vertex: proto.Clone(v.queue[0].vrx.Vertex).(*pb.Vertex),
+					Gossipers: append(append([]*pb.Gossiper{}, v.queue[0].vrx.Gossipers...), trail...)}}
+				v.queue = append([]qmsg{forged}, v.queue[1:]...)
+			}
+			for steps := 0; len(v.queue) > 0 && steps < 30; steps++ {
+				if replay && v.queue[0].vrx != nil && v.queue[0].src == 1 {
+					// the relay's own forward towards node 2: the adversarial variant adds the trail here as well
+					v.queue[0].vrx.Gossipers = append(v.queue[0].vrx.Gossipers, trail...)
+				}
+				v.deliver(0)
+			}
+			cancel()
+			c.Rep.Evals++
+			c.Count("trx-then-vertex")
+			c.Distinct(fmt.Sprintf("trx-then-vertex/replay=%v", replay))
+			for i := 1; i <= 2; i++ {
+				if !v.hasItem(i) {
+					pid, key := "C11", "vertex-sealing-a-gossiped-transaction-not-delivered"
+					if replay {
+						pid, key = "C12", "transaction-gossip-entries-accepted-for-the-vertex"
+					}
+					c.Violate(pid, key, fmt.Sprintf("a contract was gossiped as awaiting transaction, then sealed at node 0 and the vertex gossiped (replayed transaction-gossip entries: %v): node %d does not hold the vertex", replay, i),
+						map[string]interface{}{"section": "gossip", "scenario": "trx-then-vertex", "replay": replay})
+					break
+				}
+			}
+			v.close()
+		}
 		// ---- two items out of order: the child vertex reaches a relay before its parent
 		for rep := 0; rep < 2; rep++ {
 			adj := [][]int{{1}, {0, 2}, {1}}
@@ -1060,8 +1131,20 @@ func init() {
 				out = "rejected"
 			}
 			c.Line("GDELIVER 0 | 1 %s | %s", out, v.settle())
+			time.Sleep(20 * time.Millisecond) // the relay's fetch of the missing parent from its peers has failed by now
 			v.gsp[1].Server().GossipVrx(context.Background(), m1.vrx) // then the parent (not part of the item's trace)
 			v.settle()
+			if snap := v.nodes[1].ab.VerifSnapshot(); !func() bool {
+				for _, x := range snap.Vertices {
+					if x.Hash == v1.Hash {
+						return true
+					}
+				}
+				return false
+			}() {
+				c.Violate("C13", "parent-gossiped-after-failed-fetch-is-dropped", "the child reached the relay first, the fetch of its parent from the peers failed, then the parent arrived by ordinary gossip: the relay did not admit the parent",
+					map[string]interface{}{"section": "gossip", "scenario": "child-before-parent"})
+			}
 			for _, m := range v.queue { // whatever the relay forwards now goes on to node 2
 				v.gsp[m.dst].Server().GossipVrx(context.Background(), m.vrx)
 			}
@@ -1086,6 +1169,10 @@ func init() {
 			c.Line("GFINAL | %s | *", strings.Join(ad, ","))
 			c.Rep.Evals++
 			c.Distinct(fmt.Sprintf("reorder/relay-has=%v/last-has=%v", v.hasItem(1), v.hasItem(2)))
+			if !v.hasItem(1) {
+				c.Violate("C13", "child-before-parent-never-admitted", "line 0-1-2: the child vertex reached relay 1 before its parent; after the parent arrived and the orphan buffer was retried the relay still does not hold the child",
+					map[string]interface{}{"section": "gossip", "scenario": "child-before-parent"})
+			}
 			if !v.hasItem(2) {
 				c.Violate("C11", "parked-vertex-never-forwarded", fmt.Sprintf("line 0-1-2: the child vertex reached relay 1 before its parent; relay holds it now: %v; node 2 never receives it", v.hasItem(1)),
 					map[string]interface{}{"section": "gossip", "scenario": "child-before-parent"})
